@@ -4,6 +4,7 @@ import (
 	"encoding/hex"
 	"encoding/json"
 	"fmt"
+	"regexp"
 	"strings"
 
 	"github.com/machship/mpath"
@@ -29,12 +30,16 @@ func init() {
 	props["C11"] = c11
 	h.Handlers["purity"] = purityJob
 	classifiers["C11"] = func(v Violation) string {
-		if v.Case["collision"] == true && v.Case["aspect"] == "same-answer" {
+		// the recorded finding is a key LOOKUP that folds onto colliding sibling keys ("ab" / "AB" / "Ab")
+		q, _ := v.Case["query"].(string)
+		if v.Case["collision"] == true && v.Case["aspect"] == "same-answer" && collidingLookup.MatchString(q) {
 			return "case-colliding-sibling-keys"
 		}
 		return ""
 	}
 }
+
+var collidingLookup = regexp.MustCompile(`(?i)\.ab\b`)
 
 type purityReply struct {
 	Parse     string `json:"parse"` // ok | err
@@ -170,6 +175,7 @@ func c11(c *Ctx) {
 		"$.xs[@.k.Greater(0)]", "$.xs[@.k.Greater(0)].First()", "$.xs.AsArray()", "$.nums.Sum(1,2)", "$.nums.Average()", "$.nums.Maximum($.n)", "$.dec.Sum(5)", "$.dec.Minimum()", "$.typed.Sum()", "$.typed[@.Greater(1)]",
 		"$.xs.First().tags", "$.xs.Last()", "$.m", "$.m.ab", "$.M.AB", "$.s.ReplaceAll(\"a\",\"b\")", "$.s.Left(1)", "{OR,$.n.Greater(1),$.s.Contains(\"a\")}", "$.n.Add($.nums.First())", "$.xs.k", "$.xs.Index(0).k.AnyOf($.nums)",
 		"$.xs[@.tags[@.Equal(\"x\")].Any()]", "$.m.IsEmpty()", "$.xs.Count()", "$.nums.AsJSON()", "$.m.AsJSON()",
+		"$.m.Select(\"$\")", "$.m.Select(\"$.AsArray().Count()\")", "$.m.Select(\"$\").First()", "$.m.Count()", "$.m.Sum()",
 	}
 	type pc struct {
 		q         string
